@@ -728,7 +728,9 @@ class Exec:
             self.note(("restart_on_" if pi > 0 else "start_on_") + state)
         if pi > 0:
             for fn in os.listdir(self.work):
-                if fn.endswith("aggregator_tmp.tsv"):
+                # any file next to the outputs that is not an output itself may be a claim list
+                # (the probe must not depend on how the library names its temporary file)
+                if fn not in plan["files"] and not fn.startswith(("perm_", "other_", "decoy")) and os.path.isfile(self.path(fn)):
                     claims = (model.read_bytes(self.path(fn)) or b"").decode("utf8", "replace").split("\n")
                     done = {x for v in pre.values() for x in v}
                     if any(c and c not in done and c.strip('"') not in done for c in claims):
